@@ -37,7 +37,8 @@ fn leaf_view(l: &BLeaf, is_key: bool) -> Option<Leaf> {
         BLeaf::F32(b) => Leaf::Fixed(i32::from_le_bytes(*b)),
         BLeaf::F64(_) => return None,
         BLeaf::Quoted(b) => if is_key { Leaf::Unq(b.clone()) } else { Leaf::Quo(b.clone()) },
-        BLeaf::Unquoted(b) => Leaf::Unq(b.clone()),
+        // an unquoted binary string that text could not write unquoted (backslash, trailing blank) is quoted in the text view
+        BLeaf::Unquoted(b) => if is_key || text_safe_unquoted(b) { Leaf::Unq(b.clone()) } else { Leaf::Quo(b.clone()) },
         BLeaf::Id(i) => Leaf::Unq(docgen::id_name(*i)?.as_bytes().to_vec()),
     })
 }
@@ -89,6 +90,21 @@ fn sanitize_node(rng: &mut Rng, n: &mut BNode, in_array: bool) {
                 _ => {}
             }
             if let BLeaf::Quoted(b) = l { if b.contains(&b'"') || b.contains(&b'\\') { *l = BLeaf::Quoted(b"q".to_vec()); } }
+            // decoding is part of what both formats share: a backslash in front of a letter is dropped and trailing
+            // blanks are trimmed, for quoted AND unquoted binary strings alike (the text view quotes them)
+            if rng.chance(1, 6) {
+                if let BLeaf::Quoted(b) | BLeaf::Unquoted(b) = l {
+                    if !b.is_empty() && b.iter().all(|c| c.is_ascii_alphanumeric() || *c == b'_' || *c == b' ') {
+                        let mut v = b.clone();
+                        match rng.below(3) {
+                            0 => { let p = rng.below(v.len()); if v[p].is_ascii_alphabetic() { v.insert(p, b'\\'); } }
+                            1 => { for _ in 0..1 + rng.below(3) { v.push(*rng.pick(&[b' ', b'\t'])); } }
+                            _ => { let p = rng.below(v.len()); if v[p].is_ascii_alphabetic() { v.insert(p, b'\\'); } v.push(b' '); }
+                        }
+                        *l = if rng.chance(1, 2) { BLeaf::Unquoted(v) } else { BLeaf::Quoted(v) };
+                    }
+                }
+            }
         }
         BNode::Obj(fs) => sanitize(rng, fs, false),
         BNode::Arr(vs) => { for v in vs.iter_mut() { sanitize_node(rng, v, true); } }
